@@ -153,7 +153,7 @@ def c05_files(rng, tiny_f64: bool) -> typing.Dict[str, str]:
         # array capacities 1 and large (bit-packed bool arrays included: capacity is the element count, not the byte length)
         'nsa/c05/Arr.1.0.dsdl': 'uint8[1] a1\nuint8[<=1] v1\nbool[1] b1\nbool[<=1] bv1\nbool[9] b9\nbool[<=%d] bvn\nint17[<=1] x\n'
                                 'nsa.c05.Empty.1.0[1] e1\n@sealed\n' % rng.choice([8, 9, 65, 255, 256]),
-        'nsa/c05/Big.1.0.dsdl': 'uint8[<=%d] data\nbool[<=%d] bits\n@sealed\n' % (rng.choice([65535, 65536, 66000]), rng.choice([4097, 70001])),
+        'nsa/c05/Big.1.0.dsdl': 'uint8[<=%d] data\nbool[<=%d] bits\n@sealed\n' % (rng.choice([4096, 5000, 8000]), rng.choice([4097, 9001])),
         # unions with 2 and with many options
         'nsa/c05/U2.1.0.dsdl': '@union\nuint8 a\nuint16 b\n@sealed\n',
         'nsa/c05/UMany.1.0.dsdl': '@union\n' + ''.join('uint%d o%d\n' % (1 + (i * 7) % 64, i) for i in range(many)) + '@extent %d\n' % (8 * 16),
@@ -322,7 +322,7 @@ def probe_float_range(exe_codec: str) -> typing.Tuple[bool, str]:
     tid = 'nsa.c05.KFloatOvf.1.0'
     for lab, tgt in prep.targets:
         got = tgt.run(['meta ' + tid])[0]
-        n, probs, _ = check_meta(tgt, prep.db.comp(tid), got, {'xmeta': {}, 'consts': {}})
+        n, probs, _ = check_meta(tgt, prep.db.comp(tid), got, {'xmeta': {}, 'consts': {}, 'port': {}})
         if any(p['key'] == 'const.DBL_MIN' for p in probs):
             repro = True
             detail.append('%s: DBL_MIN exported as %s' % (lab, kv(got).get('const.DBL_MIN')))
@@ -400,11 +400,20 @@ def model_expected(m5: Model5, db: proto.TypeDB, tids: typing.List[str]) -> typi
                 lit_reqs.append('flt %d %d %s' % (fr.numerator, fr.denominator, py_repr_float(fr)))
                 lit_idx.append((tid, k['name'], kt, k['value']))
     lits = m5.run(lit_reqs)
+    ports = {}
+    for fam in ('c', 'cpp', 'py'):
+        rs = m5.run(['port %s %s' % (fam, 'none' if pydsdl_expected(db.comp(t))['port_id'] is None else pydsdl_expected(db.comp(t))['port_id'])
+                     for t in tids])
+        for t, r in zip(tids, rs):
+            ports.setdefault(t, {})[fam] = r.split()[1] if r.startswith('ok ') else '?'
     for tid, r in zip(tids, xm):
         c = db.comp(tid)
         d = kv(r) if r.startswith('ok') else {}
-        out[tid] = {'xmeta': d, 'consts': {}}
+        out[tid] = {'xmeta': d, 'consts': {}, 'port': ports.get(tid, {})}
         want = pydsdl_expected(c)
+        wp = 'none' if want['port_id'] is None else str(want['port_id'])
+        if any(v != wp for v in ports.get(tid, {}).values()):
+            bad.append({'tid': tid, 'model': ports.get(tid), 'problems': ['exported port id %s, DSDL says %s' % (ports.get(tid), wp)]})
         caps = [want[k] for k in want if k.startswith('cap.')]
         mcaps = [] if d.get('c.caps', '-') == '-' else d['c.caps'].split(',')
         n += 1
@@ -468,6 +477,11 @@ def translator_selftest(chk: core.Check, exe5: str) -> typing.Tuple[int, typing.
                  (-(2 ** 1023) - 1, 7), (24703282292062327, 5 * 10 ** 339), (10 ** 400 + 1, 10 ** 400), (3, 2 ** 1074)):
         fr = fractions.Fraction(n, d)
         flt.append([64, str(fr.numerator), str(fr.denominator)])
+    sto = [['b', 1, 's'], ['v', 5, 's'], ['v', 64, 's'], ['f', 16, 's'], ['f', 16, 't'], ['f', 32, 's'], ['f', 64, 't']]
+    for w in range(1, 65):
+        sto.append(['u', w, rng.choice(['s', 't'])])
+        if w >= 2:
+            sto.append(['s', w, 's'])
     bad: typing.List[dict] = []
     total = 0
     m5 = Model5(exe5, proto.TypeDB({'types': []}))
@@ -477,7 +491,7 @@ def translator_selftest(chk: core.Check, exe5: str) -> typing.Tuple[int, typing.
     mflt = m5.run(['flt %s %s %s' % (n, d, py_repr_float(fractions.Fraction(int(n), int(d)))) for _, n, d in flt])
     for lang in ('c', 'cpp'):
         p = core.run([core.PY, os.path.join(core.VERIF, 'tools', 'harness', 'c05_impl.py')], env=core.repo_env(), timeout=300,
-                     input=json.dumps({'b2b': b2b, 'fit': fit, 'lit': lit, 'flt': flt, 'lang': lang}))
+                     input=json.dumps({'b2b': b2b, 'fit': fit, 'lit': lit, 'flt': flt, 'sto': sto, 'lang': lang}))
         try:
             impl = json.loads(p.stdout[p.stdout.index('{'):])
         except ValueError:
@@ -487,6 +501,11 @@ def translator_selftest(chk: core.Check, exe5: str) -> typing.Tuple[int, typing.
                 total += 1
                 if m != 'ok ' + i:
                     bad.append({'function': name, 'argument': a, 'translated': m, 'python': i})
+        msto = m5.run(['sto %s %s %d %s' % (lang, k, w, cm) for k, w, cm in sto])
+        for a, m, i in zip(sto, msto, impl['sto']):
+            total += 1
+            if m != 'ok ' + i:
+                bad.append({'function': 'filter_type_from_primitive / is_saturated (%s)' % lang, 'argument': a, 'translated': m, 'python': i})
         for (u, w, v), m, i, sb in zip(lit, mlit, impl['lit'], impl['std']):
             total += 1
             t = m.split()
@@ -539,7 +558,8 @@ def check_meta(tgt: proto.Target, c: dict, got: str, mexp: dict) -> typing.Tuple
         n += 1
         w = 'none' if want['port_id'] is None else str(want['port_id'])
         if d['port_id'] != w and not (tgt.name == 'py' and c.get('service_part') and d['port_id'] == 'none'):
-            probs.append({'key': 'port_id', 'got': d['port_id'], 'pydsdl': w, 'model': None})
+            probs.append({'key': 'port_id', 'got': d['port_id'], 'pydsdl': w, 'model': mexp.get('port', {}).get(fam)})
+        strata.append('port_%s' % (w if w in ('none', '0', '1', '511', '8191') else 'other'))
         strata.append('port_fixed' if want['port_id'] is not None else 'port_none')
     caps = [k for k in want if k.startswith('cap.')]
     mcaps = [] if xm.get('c.caps', '-') == '-' else xm['c.caps'].split(',')
@@ -699,7 +719,7 @@ def main(chk: core.Check, replay: typing.Optional[str] = None) -> int:
         nmeta, badm = campaign.meta_crosscheck(prep)
         for b in badm[:1]:
             failures.append({'kind': 'spec-vs-pydsdl-meta', 'detail': b, 'files': spec['files']})
-        mexp: typing.Dict[str, dict] = {tid: {'xmeta': {}, 'consts': {}} for tid in tids}
+        mexp: typing.Dict[str, dict] = {tid: {'xmeta': {}, 'consts': {}, 'port': {}} for tid in tids}
         if ok5:
             m5 = Model5(exe5, db)
             mexp, bad5, n5 = model_expected(m5, db, tids)
@@ -922,7 +942,7 @@ def shrink(f: dict, exe_codec: str) -> dict:
             p2, t2, why = rerun_single(cand, _modname(f), tgt.options, exe_codec, None)
             if t2 is not None and f['tid'] in p2.db.types:
                 got = t2.run(['meta ' + f['tid']])[0]
-                n, probs, _ = check_meta(t2, p2.db.comp(f['tid']), got, {'xmeta': {}, 'consts': {}})
+                n, probs, _ = check_meta(t2, p2.db.comp(f['tid']), got, {'xmeta': {}, 'consts': {}, 'port': {}})
                 if probs:
                     rep.update({'files': cand, 'dsdl_of_failing_type': cand[src], 'problems': probs, 'got': got, 'shrunk': True})
         else:
@@ -999,7 +1019,7 @@ def run_replay(chk: core.Check, path: str, exe5: typing.Optional[str], exe_codec
     bad = False
     if req.startswith('meta '):
         tid = req.split()[1]
-        mexp = {'xmeta': {}, 'consts': {}}
+        mexp = {'xmeta': {}, 'consts': {}, 'port': {}}
         if exe5:
             mexp = model_expected(Model5(exe5, prep.db), prep.db, [tid])[0][tid]
         n, probs, _ = check_meta(tgt, prep.db.comp(tid), got, mexp)
